@@ -108,6 +108,7 @@ func runC03(r *Run, verifDir string) {
 	r.Assume = append(r.Assume, "ref/ttlv_types.tsv is KMIP 1.4 §9.1.1.2-9.1.1.4 (item types, lengths, padding), written by hand")
 	r.NotCov = append(r.NotCov, "the arithmetic inside padForLen and bigIntToBytes", "equality of scalar values read by an independent parser (needs an executable oracle)", "that an independent generator's encodings decode to the same tree")
 
+	valueStorageFresh(r, "C03.T10")
 	ref, err := readTypeRef(filepath.Join(verifDir, "ref", "ttlv_types.tsv"))
 	r.Rule("C03.T1", "ttlv.Type codes and names equal the specification table; the reader accepts exactly codes 1..10", 11)
 	if err != nil {
